@@ -91,7 +91,7 @@ pub fn layout8(max: usize) -> impl Strategy<Value = Vec<u8>> {
 pub fn real_value() -> impl Strategy<Value = Fl> {
     prop_oneof![
         6 => moderate(),
-        2 => (-6i32..=6).prop_filter("nonzero", |i| *i != 0).prop_map(|i| Fl(i as f64 * 0.5)),
+        2 => (-6i32..=6).prop_map(|i| Fl(if i == 0 { 3.5 } else { i as f64 * 0.5 })), // (no filter: rejections add up over millions of cases)
     ]
 }
 
